@@ -19,6 +19,7 @@ def main():
     a = ap.parse_args()
     if a.cmd == "check":
         # engine T: every k-th solver query of each worker process is decided again by /usr/bin/z3 4.8.12 and cvc5 1.0.3 (vlib/qsem/tv.py)
+        os.environ["VERIF_TIER_NOW"] = a.tier      # harness modules that shrink a dimension in the quick tier read it (stated in their evidence)
         os.environ.setdefault("VERIF_XSOLVER_EVERY", "1000" if a.tier == "quick" else "250")
         mod = importlib.import_module("vlib.harness.%s" % a.prop.lower())
         sys.exit(mod.run(a.tier))
